@@ -655,6 +655,28 @@ def ufunc_content(op, cs):
     return VPw(op, tuple(cs))
 
 
+def _ufunc_with_keywords(I, fr, f, operands, out, kwargs, extra):
+    """ufunc keywords other than `out`: `where=mask` with an array `out` leaves the entries of `out` outside the mask as they were
+    (K1 for masked evaluation); every other keyword is outside the model (never silently ignored)"""
+    if extra != ['where']:
+        raise Unsupported('ufunc keywords %s' % extra)
+    mask = kwargs['where']
+    if mask is True:
+        return f(I, fr, list(operands) + ([out] if out is not None else []), {})
+    m = unwrap(I, fr, mask)
+    o = unwrap(I, fr, out) if out is not None else None
+    if not isinstance(m, PArr) or m.buf.dtype.kind != 'bool' or not isinstance(o, PArr):
+        raise Unsupported('ufunc where= without a boolean mask array and an array out (unmasked entries of a fresh result are uninitialised)')
+    full = f(I, fr, list(operands), {})
+    full = unwrap(I, fr, full)
+    if not isinstance(full, PArr):
+        raise Unsupported('masked scalar ufunc')
+    check_aligned(fr, o, m)
+    check_aligned(fr, o, full)
+    write(I, fr, o, VPw('where', (m.buf.content, full.buf.content, o.buf.content)), assign=True, prechecked=True)
+    return out
+
+
 def ufunc2(I, fr, op, a, b, out=None):
     ops = [operand(I, a), operand(I, b)]
     if ops[0][0] is None or ops[1][0] is None:
@@ -791,6 +813,9 @@ class NpModule(object):
         def f(I, fr, args, kwargs):
             out = kwargs.get('out', args[2] if len(args) > 2 else None)
             a, b = args[0], args[1]
+            extra = sorted(k for k in kwargs if k != 'out')
+            if extra:
+                return _ufunc_with_keywords(I, fr, f, [a, b], out, kwargs, extra)
             if isinstance(a, carr.CArr) or isinstance(b, carr.CArr) or isinstance(out, carr.CArr):
                 r = carr.ufunc(I, fr, op, [a, b], out=out)
                 return out if out is not None else r
@@ -815,6 +840,9 @@ class NpModule(object):
     def _mk1(self, op):
         def f(I, fr, args, kwargs):
             out = kwargs.get('out', args[1] if len(args) > 1 else None)
+            extra = sorted(k for k in kwargs if k != 'out')
+            if extra:
+                return _ufunc_with_keywords(I, fr, f, [args[0]], out, kwargs, extra)
             if isinstance(args[0], carr.CArr):
                 r = carr.ufunc(I, fr, op, [args[0]], out=out)
                 return out if out is not None else r
